@@ -136,6 +136,7 @@ func GenRandom(t *rapid.T) Case {
 		Multi: rapid.Bool().Draw(t, "multi"), Names: rapid.IntRange(0, 1).Draw(t, "names"), Split: rapid.IntRange(0, 2).Draw(t, "split") == 0}
 	if c.Dialect == "mysql" {
 		c.Flavour = rapid.SampledFrom([]string{"", "", "mysql8", "mysql57", "maria", "tidb"}).Draw(t, "flavour")
+		c.Cols = !c.Multi && rapid.IntRange(0, 2).Draw(t, "cols") == 0
 	} else {
 		c.Flavour = rapid.SampledFrom([]string{"", "", "pg15", "crdb"}).Draw(t, "pgflavour")
 	}
